@@ -158,6 +158,73 @@ Proof.
   - exfalso. apply Hni. rewrite <- E. apply in_map. exact Ha.
 Qed.
 
+(* ccp_invoke after the staged program change: staged field updates, then the state machine *)
+Definition invoke_tail (d1 : dpstate) (c2 : conn) : Z * dpstate * list Machine.devent :=
+  let rg := c_regs c2 in
+  let rg1 := mkRegs (r_report rg) (apply_pending_ctl (r_control rg) (c_pend_ctl c2)) (r_impl rg) (r_tmp rg) (r_local rg) in
+  let '(rg2, e1) := match c_pend_cwnd c2 with
+                    | Some v => (mkRegs (r_report rg1) (r_control rg1) (setn (r_impl rg1) 4 v) (r_tmp rg1) (r_local rg1),
+                                 if negb (v =? 0) then [DSetCwnd (v mod W32)] else [])
+                    | None => (rg1, [])
+                    end in
+  let '(rg3, e2) := match c_pend_rate c2 with
+                    | Some v => (mkRegs (r_report rg2) (r_control rg2) (setn (r_impl rg2) 5 v) (r_tmp rg2) (r_local rg2),
+                                 if negb (v =? 0) then [DSetRate (v mod W32)] else [])
+                    | None => (rg2, [])
+                    end in
+  let c3 := mkConn (c_index c2) (c_sent_create c2) (c_time_zero c2) (c_prog c2) (c_staged c2) rg3
+                   (repeat None 110) None None (c_prims c2) in
+  let '(rc, d2, c4, evs) := state_machine d1 c3 in
+  (rc, mkDp (d_clock d2) (d_time_zero d2) (d_progs d2) (Some c4), e1 ++ e2 ++ evs).
+
+Definition clean (c2 : conn) : conn :=
+  let rg := c_regs c2 in
+  mkConn (c_index c2) (c_sent_create c2) (c_time_zero c2) (c_prog c2) (c_staged c2)
+         (mkRegs (r_report rg) (r_control rg) (r_impl rg) (r_tmp rg) (r_local rg))
+         (repeat None 110) None None (c_prims c2).
+
+Lemma invoke_tail_idle d1 c2 : c_pend_ctl c2 = repeat None 110 -> c_pend_cwnd c2 = None -> c_pend_rate c2 = None ->
+  invoke_tail d1 c2 =
+  let '(rc, d2, c4, evs) := state_machine d1 (clean c2) in
+  (rc, mkDp (d_clock d2) (d_time_zero d2) (d_progs d2) (Some c4), evs).
+Proof.
+  intros H1 H2 H3. unfold invoke_tail, clean. rewrite H1, H2, H3, apply_pending_none. reflexivity.
+Qed.
+
+Lemma rd_clean c f j : rd (clean c) f j = rd c f j.
+Proof. destruct f; reflexivity. Qed.
+
+(* the staged program change of ccp_invoke *)
+Definition invoke_switch (d : dpstate) (c1 : conn) : dpstate * conn :=
+  match c_staged c1 with
+  | None => (d, c1)
+  | Some idx =>
+    let cc := mkConn (c_index c1) (c_sent_create c1) (c_time_zero c1) idx None (c_regs c1)
+                     (c_pend_ctl c1) (c_pend_cwnd c1) (c_pend_rate c1) (c_prims c1) in
+    match lookup_prog (d_progs d) idx with
+    | None => (d, mkConn (c_index cc) (c_sent_create cc) (d_clock d) idx None
+                         (let rg := c_regs cc in mkRegs (r_report rg) (r_control rg) (setn (r_impl rg) US_ELAPSED 0) (r_tmp rg) (r_local rg))
+                         (c_pend_ctl cc) (c_pend_cwnd cc) (c_pend_rate cc) (c_prims cc))
+    | Some p =>
+      let '(ca, ntr) := reset_walk (d_clock d) cc (dp_instrs p) 0 in
+      let p' := match ntr with
+                | Some n => mkDProg (dp_index p) (dp_uid p) (dp_exprs p) (dp_instrs p) n
+                | None => p end in
+      let cb := init_walk (d_clock d) ca (dp_instrs p) in
+      let cr := mkConn (c_index cb) (c_sent_create cb) (d_clock d) (c_prog cb) None
+                       (let rg := c_regs cb in mkRegs (r_report rg) (r_control rg) (setn (r_impl rg) US_ELAPSED 0) (r_tmp rg) (r_local rg))
+                       (c_pend_ctl cb) (c_pend_cwnd cb) (c_pend_rate cb) (c_prims cb) in
+      (mkDp (d_clock d) (d_time_zero d) (set_prog (d_progs d) p') (d_conn d), cr)
+    end
+  end.
+
+Lemma invoke_unfold d c : d_conn d = Some c -> c_sent_create c = true ->
+  invoke d =
+  let c1 := set_impl (set_impl c 4 (p_snd_cwnd (c_prims c))) 5 (p_snd_rate (c_prims c)) in
+  let '(d1, c2) := invoke_switch d c1 in
+  invoke_tail d1 c2.
+Proof. intros H1 H2. unfold invoke, invoke_switch, invoke_tail. rewrite H1, H2. reflexivity. Qed.
+
 (* the part of invoke_src after the program switch and the field updates *)
 Definition src_tail (p : sprog) (cx : ctx) (sb : sstate) (o0 : list sout) : Z * sstate * list sout :=
   let e0 := env_set (env_set (env_set (s_env sb) flag_n 0) cont_n 0) report_n 0 in
@@ -563,6 +630,101 @@ Section Invoke.
         split; [congruence|].
         split; [exact (fields_frame_trans _ _ _ F01 Hrf)|]. split; [first [reflexivity|exact Hk|symmetry; exact Hk]|]. split; [first [reflexivity|exact Hz|symmetry; exact Hz]|]. split; [exact Hlook|].
         split; [unfold Rv; eapply R_ctx; eauto; reflexivity|exact Hrb].
+  Qed.
+
+
+  Lemma Rm_ext cx s c c' : Rm scf cx s c -> (forall f j, rd c' f j = rd c f j) -> regs_wf (c_regs c') ->
+    c_time_zero c' = c_time_zero c -> c_prims c' = c_prims c -> Rm scf cx s c'.
+  Proof.
+    intros (Hwf & Hv & Htz & Hp) Hrd Hwf' Ht Hpr. split; [exact Hwf'|]. split; [|split; congruence].
+    intros x r Hx Hvc Hxm. rewrite <- (Hv _ _ Hx Hvc Hxm).
+    destruct (slot r) as [[f j]|] eqn:Es; [|unfold var_class in Hvc; rewrite Es in Hvc; discriminate].
+    rewrite !(read_reg_slot _ _ _ _ _ _ Es). apply Hrd.
+  Qed.
+
+  Theorem sim_invoke d c s (first : bool) n0 inp :
+    d_conn d = Some c -> idle c ->
+    (if first then c_staged c = Some pidx else c_staged c = None /\ c_prog c = pidx /\ n0 = ntr_of) ->
+    lookup_prog (d_progs d) pidx = Some (prog n0) ->
+    Rv s c -> env_bounded (s_env s) -> prims_bounded (fst inp) ->
+    let cx := mkCtx (snd inp) (d_time_zero d) (fst inp) in
+    let '(rc, d', em) := invoke (set_input d inp) in
+    let '(rc', s', outs) := invoke_src (mkSP decls (map sev evs)) cx (mkPend first []) s in
+    rc = rc' /\ cwnds_m em = cwnds_s outs /\ rates_m em = rates_s outs /\
+    reports_m (length (filter (fun d => sd_report d) decls)) em = reports_s outs /\
+    exists c', d_conn d' = Some c' /\ idle c' /\ c_staged c' = None /\ c_prog c' = pidx /\ c_index c' = c_index c /\
+      lookup_prog (d_progs d') pidx = Some (prog ntr_of) /\ d_time_zero d' = d_time_zero d /\
+      Rv s' c' /\ env_bounded (s_env s').
+  Proof.
+    intros Hconn (Hsent & Hpc & Hpw & Hpr) Hstage Hlook HRv Hb Hpb cx.
+    rewrite invoke_src_no_updates. cbn [sp_decls].
+    set (cin := mkConn (c_index c) (c_sent_create c) (c_time_zero c) (c_prog c) (c_staged c) (c_regs c)
+                       (c_pend_ctl c) (c_pend_cwnd c) (c_pend_rate c) (fst inp)).
+    assert (Hin : set_input d inp = mkDp (snd inp) (d_time_zero d) (d_progs d) (Some cin)) by (unfold set_input; rewrite Hconn; reflexivity).
+    rewrite Hin. rewrite (invoke_unfold (mkDp (snd inp) (d_time_zero d) (d_progs d) (Some cin)) cin eq_refl Hsent). cbn zeta.
+    change (c_prims cin) with (cx_prims cx).
+    set (c1 := set_impl (set_impl cin 4 (p_snd_cwnd (cx_prims cx))) 5 (p_snd_rate (cx_prims cx))).
+    set (ea := env_set (env_set (s_env s) cwnd_n (p_snd_cwnd (cx_prims cx))) rate_n (p_snd_rate (cx_prims cx))).
+    assert (HRin : R scf cx s cin) by (eapply R_ctx; [exact HRv|reflexivity|reflexivity|reflexivity]).
+    pose proof (pre_Rm cx s cin HRin) as HR1. fold c1 in HR1. fold ea in HR1.
+    assert (Hbea : env_bounded ea).
+    { destruct Hpb as (_&_&_&_&_&_&_&_&_&_&_&_&_&Hcw&Hrt&_). unfold ea. repeat apply env_bounded_set; auto. }
+    set (din := mkDp (snd inp) (d_time_zero d) (d_progs d) (Some cin)).
+    (* what the rest needs from the switch *)
+    assert (Hsw : exists d1 c2, invoke_switch din c1 = (d1, c2) /\
+              d_clock d1 = cx_clock cx /\ d_time_zero d1 = cx_dp_zero cx /\
+              lookup_prog (d_progs d1) pidx = Some (prog ntr_of) /\
+              c_prog c2 = pidx /\ c_staged c2 = None /\ c_index c2 = c_index c /\ c_sent_create c2 = true /\
+              c_pend_ctl c2 = repeat None 110 /\ c_pend_cwnd c2 = None /\ c_pend_rate c2 = None /\
+              Rm scf cx (if first then mkS (init_all ea decls) (cx_clock cx) else mkS ea (s_tz s)) c2 /\
+              env_bounded (s_env (if first then mkS (init_all ea decls) (cx_clock cx) else mkS ea (s_tz s)))).
+    { unfold invoke_switch. change (c_staged c1) with (c_staged c).
+      destruct first.
+      - rewrite Hstage. change (d_progs din) with (d_progs d). rewrite Hlook. change (d_clock din) with (cx_clock cx).
+        rewrite reset_walk_prog, init_walk_prog.
+        match goal with |- context [reset_fold _ ?cc0 0 defs] => set (cc := cc0) end.
+        set (ca := fst (reset_fold (cx_clock cx) cc 0 defs)). set (cb := init_fold (cx_clock cx) ca defs).
+        destruct HR1 as (Hwf1 & Hv1 & Htz1 & Hp1).
+        destruct (switch_vars cx (fun x => x <> micros_name) (mkS ea (s_tz s)) cc Hwf1 Hv1) as (Fr & Hvb).
+        fold ca in Fr, Hvb. fold cb in Fr, Hvb. cbn [s_env] in Hvb.
+        destruct Fr as (F1 & F2 & F3 & F4 & F5 & F6 & F7 & F8 & F9 & F10).
+        do 2 eexists. split; [reflexivity|]. cbn [d_clock d_time_zero d_progs c_prog c_staged c_index c_sent_create c_pend_ctl c_pend_cwnd c_pend_rate].
+        split; [reflexivity|]. split; [reflexivity|].
+        split; [apply (lookup_set_prog _ (prog n0)); [exact Hlook|reflexivity]|].
+        split; [rewrite F4; reflexivity|]. split; [reflexivity|]. split; [rewrite F3; reflexivity|].
+        split; [rewrite F6; exact Hsent|]. split; [rewrite F7; exact Hpc|]. split; [rewrite F8; exact Hpw|]. split; [rewrite F9; exact Hpr|].
+        split.
+        + (* the relation after reset_state, init_register_state and reset_time *)
+          split; [specialize (F10 Hwf1); destruct F10 as (W1&W2&W3&W4&W5); unfold regs_wf; cbn; rewrite setn_length; auto|].
+          split; [|split; [reflexivity|cbn [c_prims]; rewrite F2; exact Hp1]].
+          intros x r Hx Hvc Hxm. cbn [s_env]. rewrite <- (Hvb _ _ Hx Hvc Hxm).
+          destruct (slot r) as [[f j]|] eqn:Es; [|unfold var_class in Hvc; rewrite Es in Hvc; discriminate].
+          rewrite !(read_reg_slot _ _ _ _ _ _ Es). unfold rd. cbn [c_regs].
+          destruct f; cbn [file_of r_report r_control r_impl r_tmp r_local]; try reflexivity.
+          apply getn_setn_other. intros <-. destruct (ok_micros _ OK _ _ Hx) as [Hm _]. rewrite Es in Hm. exact (Hxm (Hm eq_refl)).
+        + cbn [s_env]. intros x. destruct (decl_name_dec decls x) as [(d0 & Hd0 & Hn0)|Hno].
+          * subst x. destruct (sd_init d0) as [v|] eqn:Ei; [|exfalso; exact (Hall_init d0 Hd0 Ei)].
+            rewrite (init_all_in _ _ _ _ Hnodup_decls Hd0 Ei). eapply Hinit_bounded; eauto.
+          * rewrite init_all_other by (intros d0 Hd0; left; apply Hno; exact Hd0). apply Hbea.
+      - destruct Hstage as (Hst & Hpg & Hn0). rewrite Hst.
+        exists din, c1. split; [reflexivity|].
+        split; [reflexivity|]. split; [reflexivity|]. split; [rewrite <- Hn0; exact Hlook|].
+        split; [exact Hpg|]. split; [exact Hst|]. split; [reflexivity|]. split; [exact Hsent|].
+        split; [exact Hpc|]. split; [exact Hpw|]. split; [exact Hpr|]. split; [exact HR1|exact Hbea]. }
+    destruct Hsw as (d1 & c2 & Hsw & Hk1 & Hz1 & Hl1 & Hpg2 & Hst2 & Hix2 & Hse2 & Hpc2 & Hpw2 & Hpr2 & HRm2 & Hb2).
+    rewrite Hsw. rewrite (invoke_tail_idle d1 c2 Hpc2 Hpw2 Hpr2).
+    assert (HRm3 : Rm scf cx (if first then mkS (init_all ea decls) (cx_clock cx) else mkS ea (s_tz s)) (clean c2)).
+    { eapply Rm_ext; [exact HRm2|intros f j; apply rd_clean| |reflexivity|reflexivity].
+      destruct HRm2 as ((W1&W2&W3&W4&W5) & _). repeat split; assumption. }
+    pose proof (sim_state_machine cx d1 (clean c2) _ Hk1 Hz1 Hl1 Hpg2 HRm3 Hb2 Hpb) as Hsm.
+    destruct (state_machine d1 (clean c2)) as [[[rc d2] c4] em].
+    destruct (src_tail (mkSP decls (map sev evs)) cx (if first then mkS (init_all ea decls) (cx_clock cx) else mkS ea (s_tz s)) []) as [[rc' s'] outs].
+    destruct Hsm as (E1 & E2 & E3 & E4 & (G1&G2&G3&G4&G5&G6&G7&G8) & Hck & Hzk & Hl2 & HRv' & Hb').
+    split; [exact E1|]. split; [exact E2|]. split; [exact E3|]. split; [exact E4|].
+    exists c4. cbn [d_conn d_progs d_time_zero].
+    split; [reflexivity|]. split; [repeat split; [rewrite G4; exact Hse2|rewrite G5; reflexivity|rewrite G6; reflexivity|rewrite G7; reflexivity]|].
+    split; [rewrite G3; exact Hst2|]. split; [rewrite G2; exact Hpg2|]. split; [rewrite G1; exact Hix2|].
+    split; [exact Hl2|]. split; [rewrite Hzk; exact Hz1|]. split; [exact HRv'|exact Hb'].
   Qed.
 
 End Invoke.
